@@ -62,7 +62,8 @@ class FakeTransport(object):
 
 class FakeHandle(object):
     def __init__(self, loop, when, cb, args):
-        self.loop, self.when, self.cb, self.args = loop, when, cb, args
+        self.loop, self._when, self.cb, self.args = loop, when, cb, args
+        self._scheduled = True
         self.cancelled_ = False
         self.fired = False
 
@@ -71,6 +72,9 @@ class FakeHandle(object):
 
     def cancelled(self):
         return self.cancelled_
+
+    def when(self):
+        return self._when
 
     @property
     def live(self):
@@ -105,13 +109,13 @@ class FakeLoop(object):
         returns the list of fire times"""
         fired = []
         while True:
-            due = sorted([h for h in self.handles if h.live and h.when <= t], key=lambda h: h.when)
+            due = sorted([h for h in self.handles if h.live and h._when <= t], key=lambda h: h._when)
             if not due:
                 break
             h = due[0]
-            self.now = max(self.now, h.when)
+            self.now = max(self.now, h._when)
             h.fired = True
-            fired.append(h.when)
+            fired.append(h._when)
             h.cb(*h.args)
         self.now = max(self.now, t)
         return fired
